@@ -21,9 +21,11 @@
            results of `a[i] <op> x` (comparisons: their truth values, and a field is always
            truthy), a numpy scalar / 0-d array yields `s.item() <op> x` itself;
          - Python scalars (int, float, bool) return NotImplemented for a field operand.
-     * _binary_op / _unary_op / numeric_divmod / dtype_to_str / MemoryFieldArray.write and
-       DataFrame.__setitem__ over an abstract heap of fields (Section Wrappers; numpy's functions
-       are section variables). *)
+     * _binary_op / _unary_op / numeric_divmod / dtype_to_str / MemoryFieldArray.write,
+       MemoryFieldArray.__getitem__ (a never-written field reads as the empty array of its own
+       dtype — after the repair of F-C13b) and DataFrame.__setitem__ over an abstract heap of
+       fields (Section Wrappers; numpy's functions are section variables).  The extracted
+       instance is symbolic (`sym`): the harness interprets the symbols with the real numpy. *)
 From Coq Require Import ZArith List Bool.
 From EV Require Import Res.
 Import ListNotations.
